@@ -1,10 +1,12 @@
 //! Derived-facts drivers (intervals, pruning, hashing, scalars) -- DESIGN.md 7.4 / 7.6.
+mod c22;
 mod c23;
 
 fn main() {
     let a: Vec<String> = std::env::args().collect();
     let cmd = a.get(1).map(|s| s.as_str()).unwrap_or("");
     match cmd {
+        "c22" => c22::main(),
         "c23" => c23::main(),
         _ => {
             eprintln!("usage: vfacts <c23|c22|c12|c34|c32> [options]");
